@@ -5,4 +5,5 @@ Extraction Language OCaml.
 Extraction "../ocaml/gen/reg_model.ml"
   empty_world add_param add_model has_submodel get_all_parameters get_trainable_parameters
   get_parameter get_submodel get_parameter1 get_submodel1
-  empty_opt opt_add_param opt_add_model opt_registered opt_reset_gradients.
+  empty_opt opt_add_param opt_add_model opt_registered opt_reset_gradients
+  model_load_plan.
